@@ -146,6 +146,39 @@ def directed_shared_lambda(ctx):
         )
 
 
+def directed_shared_toplevel(ctx):
+    """One ast.Lambda object whose body is a TOP-LEVEL call that type following rewrites (defaults filled), given first to an
+    untyped stream, then to typed ones (also through a refused Where): the earlier streams must not change. (The original
+    tree returns a new lambda here; only nested positions are edited in place - that is the recorded finding F14.)"""
+    from func_adl import EventDataset
+
+    class EvA:
+        def met(self, scale: int = 3) -> float: ...
+
+    class EvB:
+        def met(self, scale: int = 3, shift: int = 8) -> float: ...
+
+    class DS(EventDataset):
+        async def execute_result_async(self, a, title=None):
+            return a
+
+    lam = astx.parse_expr("lambda e: e.met()")
+    streams = [DS().Select(lam)]
+    snaps = [astx.dump_fields(streams[0].query_ast)]
+    for make in (lambda: DS(EvA).Select(lam), lambda: DS(EvB).Select(lam), lambda: DS(EvA).Where(lam), lambda: DS().SelectMany(lam)):
+        try:
+            streams.append(make())
+            snaps.append(astx.dump_fields(streams[-1].query_ast))
+        except ValueError:
+            pass
+        ctx.case("directed-shared-toplevel", True)
+        ctx.count("directed:shared-toplevel-lambda-steps")
+        for i, (s, snap) in enumerate(zip(streams, snaps)):
+            if astx.dump_fields(s.query_ast) != snap:
+                ctx.violation("shared-lambda-object:top-level-rewrite-leaked", f"one ast.Lambda object (body = a top-level typed call) shared between streams: stream #{i} changed to {astx.unparse(s.query_ast)[:200]}", {"directed": "shared-toplevel"})
+                return
+
+
 def shard_main(ctx):
     if ctx.shard == 1 % ctx.nshards:
         from ..core import repo_tests_under_monitors
@@ -154,6 +187,7 @@ def shard_main(ctx):
     if ctx.shard == 0:
         directed(ctx)
         directed_shared_lambda(ctx)
+        directed_shared_toplevel(ctx)
     for i in range(N_CASES[ctx.tier]):
         if ctx.out_of_time():
             ctx.count("stopped-by-time-budget")
@@ -168,7 +202,9 @@ def shard_main(ctx):
 
 
 def replay(ctx, witness):
-    if witness.get("directed") == "shared-lambda":
+    if witness.get("directed") == "shared-toplevel":
+        directed_shared_toplevel(ctx)
+    elif witness.get("directed") == "shared-lambda":
         directed_shared_lambda(ctx)
     elif "hist_seed" in witness:
         run_history(ctx, witness["hist_seed"], witness["nsteps"])
